@@ -1,4 +1,4 @@
-import PermutaModel.Model.C01
+import PermutaModel.Model.C01Deque
 open Proto
 
 namespace Driver.C01
@@ -23,7 +23,19 @@ def handle (op : String) (a : List String) : Option String :=
   | "avoidedby", [p, ss] => some (showBool (Model.avoidedBy (parseSeq p) (parseSeqs ss)))
   | "count", [p, s] => some (toString (Model.countOcc (parseSeq p) (parseSeq s)))
   | "lfc", [p] =>
+      -- the literal deque algorithm; `NONTERM` = a `while` loop would spin forever (proved impossible)
+      some (match Model.lfcDeque (parseSeq p) with
+        | none => "NONTERM"
+        | some l => ";".intercalate (l.map fun x => s!"{x.1},{x.2}"))
+  | "lfcspec", [p] =>
       some (";".intercalate ((Model.lfcOut (parseSeq p)).map fun x => s!"{x.1},{x.2}"))
+  | "occdq", [p, s] =>
+      -- deque generator -> `_pattern_details` -> search (the code-shaped pipeline)
+      some (match Model.occurrencesInDeque (parseSeq p) (parseSeq s) with
+        | none => "NONTERM"
+        | some l => showSeqs l)
+  | "occcspec", [p, s, cp, cs] =>
+      some (showSeqs (Spec.occurrencesC (parseSeq p) (parseSeq s) (parseSeq cp) (parseSeq cs)))
   | _, _ => none
 
 end Driver.C01
